@@ -519,6 +519,19 @@ func c19RandSession(r *lib.Rng, listed func(string) bool) c19Session {
 	for tries := 0; len(g.defs) < n && tries < 100; tries++ {
 		g.addDef()
 	}
+	// documentation is part of the restored world
+	for i := range g.defs {
+		d := &g.defs[i]
+		if !strings.Contains(d.Forms[0], " \"Doc ") {
+			continue
+		}
+		switch d.Kind {
+		case "defvar", "defparameter", "defconstant":
+			d.Probes = append(d.Probes, fmt.Sprintf("(documentation '%s 'variable)", d.Name))
+		case "defun":
+			d.Probes = append(d.Probes, fmt.Sprintf("(documentation '%s 'function)", d.Name))
+		}
+	}
 	return c19Session{Defs: g.defs}
 }
 
@@ -730,7 +743,7 @@ func c19RunSessions(c *lib.Ctx) {
 			}
 		}
 	}
-	nRandom := c.Scale(60, 600)
+	nRandom := c.Scale(120, 2000)
 	for i := 0; i < nRandom; i++ {
 		sessions = append(sessions, c19RandSession(c.Rng, listed))
 	}
